@@ -40,11 +40,22 @@ RULES = {
                                                    {"s": 1, "op": "add", "cs": ["x != 5", "ULT(z, 2)"]}, P(1), P(0), E("z", 5, 1),
                                                    {"s": 0, "op": "satisfiable", "extra": []}, {"s": 1, "op": "satisfiable", "extra": []}],
 }
+# oracle-only classes: ALL solvers of the history through one dump (a solver and its branches come back sharing what they shared)
+PA = lambda: {"s": 0, "op": "pickle", "all": True}  # noqa: E731
+RULES_TOGETHER = {
+    "branches-pickled-together-parent-grows": [A("ULE(x, 11)"), {"s": 0, "op": "branch"}, PA(), A("ULT(x, 3)", 0), E("x", 20, 1), E("x", 20, 0)],
+    "branches-pickled-together-child-grows": [A("ULE(x, 11)"), A("y == 6"), E("x", 2), {"s": 0, "op": "branch"}, {"s": 1, "op": "branch"}, PA(),
+                                              A("UGE(x, 8)", 2), A("z == y", 1), E("x", 20, 0), E("x", 20, 1), E("z", 20, 2), E("z", 20, 1),
+                                              {"s": 0, "op": "max", "e": "x", "signed": False, "extra": []}],
+}
 
 
 def jobs_for(ctx, classes, mult=1):
     jobs = []
     for cls in classes:
+        if cls in OTHERS:
+            for name, h in RULES_TOGETHER.items():
+                jobs.append({"cls": cls, "cfg": {"track": False, "reuse": False}, "hist": h})
         for name, h in RULES.items():
             for cfg in ({"track": False, "reuse": False}, {"track": cls not in ("SolverReplacement", "SolverReplacement:noauto"), "reuse": False}):
                 jobs.append({"cls": cls, "cfg": cfg, "hist": h})
@@ -52,7 +63,7 @@ def jobs_for(ctx, classes, mult=1):
         lens = ctx.pick([10, 20, 30], [30, 60, 100])
         for i in range(n):
             jobs.append({"cls": cls, "cfg": {"track": cls != "SolverReplacement" and i % 5 == 0, "reuse": i % 3 == 0},
-                         "len": lens[i % len(lens)], "gen": {"weights": WEIGHTS}})
+                         "len": lens[i % len(lens)], "gen": dict({"weights": WEIGHTS}, **({"pickle_all": 0.4, "max_solvers": 5} if cls in OTHERS else {}))})
         # round trip BEFORE the first question: add() calls with several constraints, half of them contradicting syntactically what the
         # solver holds, pickle, then the first question; random tail with more such adds
         for i in range(ctx.pick(14, 100) * mult):
@@ -240,7 +251,8 @@ def run(ctx):
     ]
     ctx.cov["rule"] = ("(a) rule-directed and random histories with in-place pickle round trips (weight 12/95; a part of them opening with multi-constraint / "
                        "syntactically contradicting add() calls and a round trip BEFORE the first question) on Solver, SolverCacheless, SolverStrings, "
-                       "SolverCompositeChild (model correspondence) and SolverComposite, SolverHybrid, SolverReplacement (oracle); (b) solver trees pickled "
+                       "SolverCompositeChild (model correspondence) and SolverComposite, SolverHybrid, SolverReplacement (oracle; there 40% of the round trips "
+                       "send ALL solvers of the history through one dump, so that branches come back sharing what they shared); (b) solver trees pickled "
                        "after a random prefix, suffix run and judged in a fresh interpreter with a random PYTHONHASHSEED; (c) random annotated expressions "
                        "(depth <= 4): identity in-process, structure and value table equal in a fresh process; (d) SolverReplacement histories with "
                        "add_replacement(variable, constant): the restored solver tuple runs side by side with the original, answers compared, in-process and (over a variable whose hash differs between processes) in a fresh process; (e) annotated / floating-point "
